@@ -20,7 +20,7 @@ RULE = (
     "chain lengths, a repeated single-agent measurement, or a missing one, or a production-size evaluation. distinct = distinct case JSON."
 )
 ASSUMPTIONS = [
-    "tolerance rtol 1e-10 (1e-8 for the similarity matrix)",
+    "tolerance: 1e-10 relative to the metric's own value (the two variances additionally 1e-12 x the squared mean they are the spread around); 1e-10 / 1e-8 with a small absolute floor for effect arrays, synergy and the similarity matrix",
     "the similarity matrix is accepted if it equals either the across-sample-centred cosine similarity (the shipped definition) or the per-sample Pearson correlation of the averaged predictions; undefined (zero-norm) entries are only required not to be a wrong finite value",
 ]
 
@@ -48,10 +48,17 @@ def _evaluation(draw):
         chains = [relabel[c] for c in chains]
     if draw(st.integers(0, 3)) == 0:
         chains = draw(st.permutations(chains))
+    obs = [draw(_f) for _ in range(e)]
+    if draw(st.integers(0, 3)) == 0:
+        # a near-perfect fit: every prediction within 1e-6 .. 1e-9 of its observation (errors far smaller than the values themselves)
+        scale = draw(st.sampled_from([1e-6, 1e-8, 1e-9]))
+        pred = [[o_ + scale * draw(st.floats(min_value=-1, max_value=1, allow_nan=False)) for _ in range(t)] for o_ in obs]
+    else:
+        pred = [[draw(_f) for _ in range(t)] for _ in range(e)]
     return {
         "kind": "evaluation",
-        "pred": [[draw(_f) for _ in range(t)] for _ in range(e)],
-        "obs": [draw(_f) for _ in range(e)],
+        "pred": pred,
+        "obs": obs,
         "chains": chains,
         "names": [draw(S.names) for _ in range(e)],
     }
@@ -135,9 +142,15 @@ def _check_evaluation(case):
         chain_mses.append(sum(sq[e][t] for e in range(E) for t in cols) / (E * len(cols)))
     cbar = sum(chain_mses) / len(chain_mses)
     var_c = sum((x - cbar) ** 2 for x in chain_mses) / len(chain_mses)
-    require(_close(me.mse(), mse), "mse", lambda: "mse %r, direct %r" % (me.mse(), mse))
-    require(_close(me.mse_variance(), var_e), "mse_variance", lambda: "mse_variance %r, variance across experiments of the per-experiment MSE %r" % (me.mse_variance(), var_e))
-    require(_close(me.inter_chain_mse_variance(), var_c), "inter_chain_mse_variance", lambda: "inter-chain variance %r, variance of per-chain MSEs %r (chains %r)" % (me.inter_chain_mse_variance(), var_c, ch.tolist()))
+    # tolerances relative to the quantities themselves (a near-perfect fit has errors of 1e-12 and below): 1e-10 of the value; the two
+    # variances may in addition carry the rounding of the squared mean they are the spread around (1e-12 x mean^2)
+    def near(got, ref, extra=0.0):
+        got = float(got)
+        return got == ref or abs(got - ref) <= 1e-10 * abs(ref) + extra
+
+    require(near(me.mse(), mse), "mse", lambda: "mse %r, direct %r" % (me.mse(), mse))
+    require(near(me.mse_variance(), var_e, 1e-12 * mbar * mbar), "mse_variance", lambda: "mse_variance %r, variance across experiments of the per-experiment MSE %r" % (me.mse_variance(), var_e))
+    require(near(me.inter_chain_mse_variance(), var_c, 1e-12 * cbar * cbar), "inter_chain_mse_variance", lambda: "inter-chain variance %r, variance of per-chain MSEs %r (chains %r)" % (me.inter_chain_mse_variance(), var_c, ch.tolist()))
     require(_close(me.mean_predictions, [sum(P[e]) / T for e in range(E)]), "mean_predictions", "mean_predictions is not the average over posterior samples")
     p = tmp.fresh("me.h5")
     try:
